@@ -66,6 +66,18 @@ Sensitivity (quick tier, seed 1, scratch copy of /repo/tornado, one mutant at a 
   M7 size violation closes with 1000 instead of 1009                  -> C15.size_violation_close_code
   M8 text decoded with errors="replace"                               -> C15.delivered_after_violation (bad_utf8)
   M9 control-frame length check removed                               -> C15.not_aborted (control_len126)
+Added after independent mutation testing found a gap (both caught at seed 1 by `main`, `frames` and `grid`):
+  M10 "new data frame while a fragmented message is open" tested by truthiness of the reassembly buffer
+      (`if self._fragmented_message_buffer:`): only wrong while the open message is still EMPTY
+                                                                      -> C15.not_aborted (data_inside_fragmented with an
+                                                                         empty opening frame) + C15.frames.* in the grid
+  M11 "continuation with nothing in progress" tested by `not self._fragmented_message_buffer`
+      (valid continuation after an empty first fragment is cut)      -> C15.valid_prefix_not_delivered + C15.frames.valid_stream_cut
+  For these the generator now produces open messages whose accumulated payload is empty (head fragment b"" plus
+  0-2 empty non-final continuations; data_inside_fragmented with an empty opening frame; a stray continuation
+  right after a complete all-empty fragmented message), the `frames` part draws empty payloads more often, and the
+  new deterministic part `grid` runs EVERY sequence of <=3 (thorough: <=4) frames over a 9-frame alphabet
+  (text/binary/continuation x final/non-final x empty/non-empty, ping) in both roles against the reference verdict.
 """
 import struct
 
@@ -86,7 +98,9 @@ RULE = (
     "inside or adjacent to a fragmented or compressed message.  Part `frames`: <=10 arbitrary complete frames "
     "(state-aware opcode choice, each header field odd with probability ~3%) judged by the reference decoder's "
     "verdict; non-trivial = >=2 frames and a verdict other than plain 'ok, nothing delivered'.  Part `refcheck`: "
-    "the same cases against the reference decoder only.  distinct = SHA-1 of the case"
+    "the same cases against the reference decoder only.  Part `grid` (exhaustive): all sequences of <=3 frames "
+    "(<=4 thorough) over 9 frames {text,binary,continuation} x {final,non-final} x {empty,non-empty} + ping, both "
+    "roles, same differential oracle.  distinct = SHA-1 of the case"
 )
 ASSUMPTIONS = [
     "vlib/wsref.py is the intended wire format; its strict decoder agrees that every generated violation is one",
@@ -134,8 +148,12 @@ violation_s = st.one_of(
     st.tuples(st.just("fragmented_control"), CTRL, small),
     st.tuples(st.just("control_len126"), CTRL, st.sampled_from([0, 5, 125, 126, 200])),
     st.tuples(st.just("control_len127"), CTRL, st.sampled_from([0, 5, 126, 70000])),
-    st.tuples(st.just("cont_no_start"), small, st.booleans()),
-    st.tuples(st.just("data_inside_fragmented"), st.booleans(), small, st.booleans()),
+    # 4th field: the stray continuation follows a complete message whose fragments were all empty
+    st.tuples(st.just("cont_no_start"), small, st.booleans(), st.booleans()),
+    # 5th field: payload of the (non-final) frame that opened the message in progress -- empty ones matter:
+    # an implementation that tests the reassembly buffer for truthiness does not see an empty open message
+    st.tuples(st.just("data_inside_fragmented"), st.booleans(), small, st.booleans(), st.sampled_from([b"start", b"", b""])),
+    st.tuples(st.just("data_inside_fragmented"), st.booleans(), small, st.booleans(), st.sampled_from([b"start", b"", b""])),
     st.tuples(st.just("bad_utf8"), st.sampled_from(sorted(BAD_UTF8)), st.sampled_from(["single", "split", "compressed", "split_compressed"])),
     st.tuples(st.just("bad_utf8"), st.sampled_from(sorted(BAD_UTF8)), st.sampled_from(["single", "split", "compressed", "split_compressed"])),
     st.tuples(st.just("unknown_opcode"), st.sampled_from([3, 4, 5, 6, 7, 0xB, 0xC, 0xD, 0xE, 0xF]), st.booleans(), small),
@@ -162,6 +180,9 @@ case_s = st.fixed_dictionaries({
     "limit": st.one_of(st.none(), st.sampled_from(LIMITS)),
     "before": st.lists(valid_msg_s, max_size=3),
     "inside": st.booleans(),
+    # the open message the violation sits in: first fragment (possibly empty) + n empty non-final continuations
+    "head": st.sampled_from([b"head!", b"head!", b"", b""]),
+    "head_conts": st.sampled_from([0, 0, 1, 2]),
     "violation": violation_s,
     "after": st.lists(valid_msg_s, max_size=2),
     "same_segment": st.booleans(),
@@ -206,7 +227,17 @@ def encode_valid(enc, m, limit, allow_ping_gap=True):
     return wire, value, info, npings
 
 
-def build_violation(enc, v, limit, deflate, inside):
+def head_of(case):
+    return case.get("head", b"head!"), case.get("head_conts", 0)
+
+
+def head_frames(enc, case):
+    """The non-final frames that open the message the violation sits in."""
+    head, nconts = head_of(case)
+    return enc.frame(wsref.OP_BINARY, head, fin=False) + b"".join(enc.frame(wsref.OP_CONT, b"", fin=False) for _ in range(nconts))
+
+
+def build_violation(enc, v, limit, deflate, inside, head=b"head!"):
     """-> (bytes, labels, info) ; info: kind_sig (root-cause class), size (bool), either (bool),
     self_inside (the violation brings its own open fragmented message), verdicts (acceptable wsref verdicts)."""
     kind = v[0]
@@ -246,17 +277,27 @@ def build_violation(enc, v, limit, deflate, inside):
         if kind == "control_len126" and n > 0xFFFF:
             data = f(op, pl, len_form=64)
     elif kind == "cont_no_start":
-        _, pl, fin = v
-        if inside:
+        pl, fin = v[1], v[2]
+        after_empty = len(v) > 3 and v[3]
+        if after_empty and not inside:
+            # a complete message made of empty fragments, then the stray continuation
+            data = f(wsref.OP_TEXT, b"", fin=False) + f(wsref.OP_CONT, b"", fin=False) + f(wsref.OP_CONT, b"", fin=True) + f(wsref.OP_CONT, pl, fin=fin)
+            info["prelude_values"] = [""]
+            labels.add("cont_no_start_after_empty_message")
+            info["adjacent"] = True
+        elif inside:
             # inside a fragmented message a continuation is valid; the violation becomes a *second* final
             data = f(wsref.OP_CONT, b"end", fin=True) + f(wsref.OP_CONT, pl, fin=fin)
             info["completes_head"] = True
         else:
             data = f(wsref.OP_CONT, pl, fin=fin)
     elif kind == "data_inside_fragmented":
-        _, binary, pl, fin = v
-        data = (b"" if inside else f(wsref.OP_TEXT, b"start", fin=False)) + f(wsref.OP_BINARY if binary else wsref.OP_TEXT, pl if binary else b"new", fin=fin)
+        binary, pl, fin = v[1], v[2], v[3]
+        opening = v[4] if len(v) > 4 else b"start"
+        data = (b"" if inside else f(wsref.OP_TEXT, opening, fin=False)) + f(wsref.OP_BINARY if binary else wsref.OP_TEXT, pl if binary else b"new", fin=fin)
         info["self_inside"] = True
+        if (head if inside else opening) == b"":
+            labels.add("data_inside_empty_fragmented")
     elif kind == "bad_utf8":
         _, which, how = v
         raw = BAD_UTF8[which]
@@ -291,8 +332,8 @@ def build_violation(enc, v, limit, deflate, inside):
         _, extra, cuts, binary = v
         n = limit + extra
         if inside:
-            # the open message already holds 5 bytes ("head!"): the continuation brings it above the limit
-            body = b"z" * max(n - 5, 1)
+            # the open message already holds len(head) bytes: the continuation brings it above the limit
+            body = b"z" * max(n - len(head), 1)
             frags = wsref.split_at(body, sorted(len(body) * c // 1000 for c in cuts))
             data = b"".join(f(wsref.OP_CONT, fr, fin=(i == len(frags) - 1)) for i, fr in enumerate(frags))
         else:
@@ -452,15 +493,19 @@ def run_case(ctx, case0):
         # ---- optional open fragmented message, violation, valid suffix
         tail = bytearray()
         head_value = None
+        head = head_of(case)[0]
         if case["inside"]:
-            tail += enc.frame(wsref.OP_BINARY, b"head!", fin=False)
+            tail += head_frames(enc, case)
             labels.add("inside_fragmented")
-        vbytes, vlabels, vinfo = build_violation(enc, case["violation"], limit, deflate, case["inside"])
+            if head == b"":
+                labels.add("inside_empty_fragmented")
+        vbytes, vlabels, vinfo = build_violation(enc, case["violation"], limit, deflate, case["inside"], head)
         labels.update(vlabels)
         out["vinfo"] = vinfo
         if vinfo.get("completes_head"):
-            head_value = b"head!" + (b"end" if case["violation"][0] == "cont_no_start" else b"")
+            head_value = head + (b"end" if case["violation"][0] == "cont_no_start" else b"")
             expect.append(head_value)  # completed by a valid frame that precedes the violating one
+        expect.extend(vinfo.get("prelude_values", []))  # valid messages that are part of the violation's set-up
         tail += vbytes
         suffix = bytearray()
         after_values = []
@@ -570,8 +615,8 @@ def reference_verdict_case(ctx, case0):
     if dec.error or dec.leftover:
         raise AssertionError("reference decoder rejects the valid prefix: %s" % dec.error)
     if case["inside"]:
-        dec.feed(enc.frame(wsref.OP_BINARY, b"head!", fin=False))
-    vbytes, vlabels, vinfo = build_violation(enc, case["violation"], case["limit"], case["deflate"], case["inside"])
+        dec.feed(head_frames(enc, case))
+    vbytes, vlabels, vinfo = build_violation(enc, case["violation"], case["limit"], case["deflate"], case["inside"], head_of(case)[0])
     dec.feed(vbytes)
     if dec.error is None:
         raise AssertionError("reference decoder accepts violation %r" % (case["violation"],))
@@ -592,6 +637,7 @@ frame_s = st.tuples(
     ODD(0, [1, 2, 4, 7]),                                               # RSV bits (4 = RSV1)
     st.booleans(),                                                      # binary / text, reserved opcode pick
     st.one_of(st.text(text_chars, max_size=6).map(lambda t: t.encode("utf-8")), st.text(text_chars, max_size=6).map(lambda t: t.encode("utf-8")),
+              st.just(b""),
               st.sampled_from([b"", b"\x03\xe8", b"\x03\xe8bye", b"a" * 125, b"a" * 126, b"\xe2\x82", b"\xac", b"\x03", b"\x03\xe8\xff", b"\xff"])),
     ODD(None, [16, 64]),                                                # length form override
     ODD(True, [False]),                                                 # masking as the role requires
@@ -615,7 +661,9 @@ def run_frames_case(ctx, case):
     nframes = 0
     open_msg = False
     for kind, fin, rsv, flag, payload, form, mask_ok, ctl_fin in case["frames"]:
-        if kind == "data":
+        if isinstance(kind, int):
+            op = kind                       # explicit opcode (deterministic grid)
+        elif kind == "data":
             op = wsref.OP_CONT if open_msg else (wsref.OP_BINARY if flag else wsref.OP_TEXT)
         elif kind == "wrong_data":
             op = (wsref.OP_BINARY if flag else wsref.OP_TEXT) if open_msg else wsref.OP_CONT
@@ -716,7 +764,25 @@ def run_frames_case(ctx, case):
         ctx.fail("C15.frames.tornado_frames_undecodable", dict(detail, tornado_verdict=out["dec"].error))
     ctx.note(case, labels, nframes >= 2 and (verdict is not None or bool(ref_close) or len(want) >= 1))
 
-PARTS = {"main": run_case, "refcheck": reference_verdict_case, "frames": run_frames_case}
+# ---- deterministic grid: every sequence of <=3 frames (<=4 in the thorough tier) over this alphabet, both roles.
+# Empty payloads are deliberate: reassembly state that is "present but empty" must behave like "present".
+GRID_ALPHABET = [
+    (wsref.OP_TEXT, False, b""), (wsref.OP_TEXT, False, b"a"), (wsref.OP_TEXT, True, b""), (wsref.OP_TEXT, True, b"b"),
+    (wsref.OP_BINARY, True, b"c"), (wsref.OP_CONT, False, b""), (wsref.OP_CONT, True, b""), (wsref.OP_CONT, True, b"d"),
+    (wsref.OP_PING, True, b"p"),
+]
+
+
+def grid_cases(maxlen):
+    import itertools
+    for n in range(1, maxlen + 1):
+        for seq in itertools.product(range(len(GRID_ALPHABET)), repeat=n):
+            for role in ("server", "client"):
+                yield {"role": role, "callback_mode": True, "segs": [],
+                       "frames": [(GRID_ALPHABET[i][0], GRID_ALPHABET[i][1], 0, False, GRID_ALPHABET[i][2], None, True, True) for i in seq]}
+
+
+PARTS = {"main": run_case, "refcheck": reference_verdict_case, "frames": run_frames_case, "grid": run_frames_case}
 
 
 def main(ctx):
@@ -724,3 +790,4 @@ def main(ctx):
     ctx.explore(case_s, reference_verdict_case, ctx.n(300, 4000), name="refcheck")
     ctx.explore(case_s, run_case, ctx.n(2500, 40000), name="main")
     ctx.explore(frames_case_s, run_frames_case, ctx.n(1200, 30000), name="frames")
+    ctx.enumerate(grid_cases(4 if ctx.thorough else 3), run_frames_case, name="grid")
